@@ -162,7 +162,11 @@ func C20(run *core.Run) {
 		srv.Close()
 		run.Add("requests", 1)
 		distinct.Add(fmt.Sprintf("%s/%s/%s/%s", rq.Upgrade, rq.Accept, rq.Doc, rq.Def))
-		if outcome != rq.Outcome {
+		allowed := false
+		for _, o := range strings.Split(rq.Outcome, "|") {
+			allowed = allowed || o == outcome
+		}
+		if !allowed {
 			run.Violate(fmt.Sprintf("route:upgrade=%s accept=%s doc=%s default=%s want=%s got=%s", rq.Upgrade, rq.Accept, rq.Doc, rq.Def, rq.Outcome, outcome),
 				fmt.Sprintf("%+v: observed %s (%s)", rq, outcome, detail), map[string]any{"request": rq})
 		}
@@ -267,6 +271,12 @@ func frontDoorRequest(url string, rq fdReq, h *recHandler, wantDoc []byte) (outc
 	}
 	if accept != "" {
 		req.Header.Set("Accept", accept)
+	}
+	switch rq.Accept {
+	case "lines-exact-first":
+		req.Header["Accept"] = []string{"application/nostr+json", "text/html"}
+	case "lines-exact-second":
+		req.Header["Accept"] = []string{"text/html", "application/nostr+json"}
 	}
 	resp, err := http.DefaultClient.Do(req)
 	if err != nil {
